@@ -5,7 +5,8 @@
    string:               comma separated hex code points, "_" = empty
    spans:                comma separated  i-j  or  x (#f)
    requests:
-     B <sre> | s1 | s2 ...      ->  for each string "<matchb><searchb>", space separated
+     B <sre> | s1 | s2 ...      ->  "<has_nongreedy><count_subs>" then for each string
+                                    "<matchb><searchb>:<search_span i-j or x>", space separated
      C <sre> | s | spans        ->  check_spans as 0/1
      F HEX -> fold, W HEX -> is_word *)
 open Model
@@ -83,7 +84,14 @@ let handle fields =
          | sre :: strs ->
              let (r, left) = p_sre sre in
              if left <> [] then "ERR trailing sre tokens" else
-             String.concat " " (List.map (fun f -> let s = str_of f in b2s (matchb r s) ^ b2s (searchb r s)) strs)
+             String.concat " "
+               ((b2s (has_nongreedy r) ^ string_of_int (int_of_nat (count_subs r))) ::
+                List.map (fun f ->
+                    let s = str_of f in
+                    b2s (matchb r s) ^ b2s (searchb r s) ^ ":" ^
+                    (match search_span r s with
+                     | None -> "x"
+                     | Some (i, j) -> string_of_int (int_of_nat i) ^ "-" ^ string_of_int (int_of_nat j))) strs)
          | [] -> "ERR empty")
     | "C" :: rest ->
         (match split_bar [] [] rest with
